@@ -322,7 +322,8 @@ class C19:
         torn = []
         if faulty and backend == "disk" and rng.random() < 0.6:
             for k in rng.sample(pool, 1 + rng.randrange(min(2, len(pool)))):
-                torn.append({"key": k, "n": 1 + rng.randrange(4), "cut": rng.random()})
+                # a quarter of the torn files are cut at byte 0 (an empty file, which DiskCacher treats as absent)
+                torn.append({"key": k, "n": 1 + rng.randrange(4), "cut": 0.0 if rng.random() < 0.25 else rng.random()})
         return {"backend": backend, "shape": shape, "keys": pool, "callers": callers, "torn": torn,
                 "restart_readers": 1 + rng.randrange(3),
                 "knobs": {"array_yields": rng.random() < 0.7, "disk_yields": rng.random() < 0.6,
